@@ -14,6 +14,9 @@ ARBITRARY conditioner functions, masked affine AUTOREGRESSIVE layers (MAF / MADE
 conditioners of the strict prefix and the literal sweep-loop inverse, triangular affine maps and the LU linear layer,
 elementwise affine layers and permutations are lawful — hence RealNVP stacks (coupling + permutation / LU + batch norm in
 eval mode / actnorm) and MAF stacks (autoregressive + permutation + batch norm) of any depth.
+The density theorems take POINTWISE round-trip hypotheses (`RoundTripAt`, at the generating latent point and at the
+generated x'-point); they are discharged here for the layers above and for affine rescalings, while inversion, angle /
+polar and logit reparameterisations enter only through the pointwise hypothesis (checked numerically by the harness).
 NOT proved: that the density integrates to one, that `Σ log|s|` is the log-determinant of the derivative
 (calculus), lawfulness of glasflow's rational-quadratic spline and SVD (Householder) layers, batch norm in training mode,
 and all floating-point numerics — the harness checks those numerically on generated points.
@@ -39,6 +42,13 @@ way `CompositeTransform` does (left-to-right cascade, inverses in reverse order,
 `inverse(forward(x)) = (x, -logJ)` and `forward(inverse(z)) = (z, -logJ)`. -/
 theorem forward_inverse [AddCommGroup L] (ts : List (Transform X X L)) (h : ∀ t ∈ ts, Lawful t) :
     Lawful (composite ts) := composite_lawful ts h
+
+example : Lawful (composite [(⟨fun x => (x + 3, 2), fun z => (z - 3, -2)⟩ : Transform ℤ ℤ ℤ),
+    ⟨fun x => (-x, 5), fun z => (-z, -5)⟩]) := by
+  apply forward_inverse
+  intro t ht
+  simp only [List.mem_cons, List.not_mem_nil, or_false] at ht
+  rcases ht with rfl | rfl <;> exact ⟨fun x => by simp, fun z => by simp⟩
 
 example : ((composite [(⟨fun x => (x + 3, 2), fun z => (z - 3, -2)⟩ : Transform ℤ ℤ ℤ),
     ⟨fun x => (-x, 5), fun z => (-z, -5)⟩]).fwd 4) = (-7, 7) := by decide
@@ -150,6 +160,23 @@ theorem lu_linear_lawful [Field K] [AddCommGroup L] {n : Nat} (lg : K → L) (Lo
 example : Lawful (luLinear (K := ℚ) (L := ℚ) (n := 2) (fun a => a) (fun _ _ => 5) (fun _ => 3) (fun _ _ => 7) (fun _ => 1)) :=
   (lu_linear_lawful _ _ _ _ _ (fun _ => by norm_num)).1
 
+/-- **Cached evaluation path of the LU layer** (`using_cache=True`, what nessai builds, used in eval mode): the forward
+map is the product with the cached matrix `W = lower @ upper`, and every left inverse of it — in particular the cached
+`y ↦ W⁻¹ (y - b)` — is the modelled inverse (the two triangular solves).  Same function, different evaluation order. -/
+theorem lu_linear_cached_path_same_function [Field K] [AddCommGroup L] {n : Nat} (lg : K → L)
+    (Lo : Fin n → Fin n → K) (ud : Fin n → K) (Up : Fin n → Fin n → K) (b : Fin n → K) (hud : ∀ i, ud i ≠ 0) :
+    (∀ x i, ((luLinear lg Lo ud Up b).fwd x).1 i
+      = (∑ k, (∑ j, lowerMat (fun _ => 1) Lo i j * upperMat ud Up j k) * x k) + b i) ∧
+    (∀ g : (Fin n → K) → (Fin n → K), (∀ x, g ((luLinear lg Lo ud Up b).fwd x).1 = x) →
+      ∀ y, g y = ((luLinear lg Lo ud Up b).inv y).1) :=
+  ⟨luLinear_fwd_eq_cached lg Lo ud Up b,
+   fun g hg y => lawful_left_inverse_unique _ (luLinear_lawful' lg Lo ud Up b hud) g hg y⟩
+
+example (x : Fin 2 → ℚ) (i : Fin 2) :
+    ((luLinear (L := ℚ) (fun a => a) (fun _ _ => 5) (fun _ => 3) (fun _ _ => 7) (fun _ => 1)).fwd x).1 i
+      = (∑ k, (∑ j, lowerMat (fun _ => 1) (fun _ _ => 5) i j * upperMat (fun _ => 3) (fun _ _ => 7) j k) * x k) + 1 :=
+  (lu_linear_cached_path_same_function (fun a => a) _ _ _ _ (fun _ => by norm_num)).1 x i
+
 /-- a zero on the diagonal of `U` makes the layer singular -/
 theorem lu_linear_lawful_fails_without :
     ¬ Lawful (luLinear (K := ℚ) (L := ℚ) (n := 1) (fun a => a) (fun _ _ => 0) (fun _ => 0) (fun _ _ => 0) (fun _ => 0)) := by
@@ -181,14 +208,22 @@ example : ((luLinear (n := 1) Real.log (fun _ _ => 0) (fun _ => 2) (fun _ _ => 0
   (autoregressive_logJ_eq_log_volume_factor (fun _ _ => 1) (fun _ _ => 0) (fun _ _ => one_ne_zero) _ _ _ _ _
     (fun _ => by norm_num)).2
 
-/-! ## the density attached to a generated point equals the density evaluated at it -/
+/-! ## the density attached to a generated point equals the density evaluated at it
+
+The hypotheses are POINTWISE (`RoundTripAt`): of the flow at the latent point the sample is generated from, and of the
+reparameterisation at the generated x'-point.  They follow from `Lawful` (`Lawful.roundTripAt`) — proved above for
+coupling / autoregressive / LU / affine / permutation stacks and for affine rescalings (`affine_rescaling_round_trip`).
+nessai's boundary-inversion, angle / polar and logit reparameterisations are not globally invertible (two x map to one
+x'; logit is only defined on (0,1)); they enter ONLY through the pointwise hypothesis at the generated point, which the
+harness checks numerically on every generated point (C07 covers the reparameterisations themselves). -/
 
 /-- `NFlow`: the log-density `sample_and_log_prob` returns with a sample equals `log_prob` of that sample, and
 `forward_and_log_prob` of the sample returns the noise it was generated from with the same log-density. -/
-theorem gen_density_eq_eval_density_nflow [AddCommGroup L] (f : NFlowM X Z L) (h : Lawful f.T) (noise : Z) :
+theorem gen_density_eq_eval_density_nflow [AddCommGroup L] (f : NFlowM X Z L) (noise : Z)
+    (h : RoundTripAt f.T noise) :
     f.logProb (f.sampleAndLogProb noise).1 = (f.sampleAndLogProb noise).2 ∧
     f.forwardAndLogProb (f.sampleAndLogProb noise).1 = (noise, (f.sampleAndLogProb noise).2) := by
-  have e := h.2 noise
+  have e : f.T.fwd (f.T.inv noise).1 = (noise, -(f.T.inv noise).2) := h
   simp only [NFlowM.logProb, NFlowM.sampleAndLogProb, NFlowM.forwardAndLogProb, NFlowM.forward,
     NFlowM.baseLogProb]
   rw [e]
@@ -200,29 +235,29 @@ def exFlow : NFlowM ℤ ℤ ℤ := ⟨⟨fun x => (x + 3, 2), fun z => (z - 3, -
 theorem exFlow_lawful : Lawful exFlow.T := ⟨fun x => by simp [exFlow], fun z => by simp [exFlow]⟩
 
 example : exFlow.logProb (exFlow.sampleAndLogProb 10).1 = (exFlow.sampleAndLogProb 10).2 :=
-  (gen_density_eq_eval_density_nflow exFlow exFlow_lawful 10).1
+  (gen_density_eq_eval_density_nflow exFlow 10 (exFlow_lawful.roundTripAt 10)).1
 
-/-- the lawful-transform hypothesis is needed: a transform whose inverse reports the log-Jacobian with the
+/-- the round-trip hypothesis is needed: a transform whose inverse reports the log-Jacobian with the
 wrong sign attaches a different density to the sample than `log_prob` computes for it -/
 theorem gen_density_eq_eval_density_fails_without :
-    ∃ f : NFlowM ℤ ℤ ℤ, ¬ Lawful f.T ∧ f.logProb (f.sampleAndLogProb 0).1 ≠ (f.sampleAndLogProb 0).2 := by
+    ∃ f : NFlowM ℤ ℤ ℤ, ¬ RoundTripAt f.T 0 ∧ f.logProb (f.sampleAndLogProb 0).1 ≠ (f.sampleAndLogProb 0).2 := by
   refine ⟨⟨⟨fun x => (x, 1), fun z => (z, 1)⟩, fun _ => 0⟩, ?_, by decide⟩
   intro h
-  have := congrArg Prod.snd (h.1 0)
+  have := congrArg Prod.snd h
   simp at this
 
 /-- `FlowModel.sample_and_log_prob` (no `z`, or supplied `z` with no alternative distribution): the returned
 log-density equals `FlowModel.log_prob` at the returned sample, and `forward_and_log_prob` maps the sample back
 to the latent point with that same log-density. -/
-theorem gen_density_eq_eval_density_flowmodel [AddCommGroup L] (f : NFlowM X Z L) (h : Lawful f.T)
-    (noise : Z) (z : Option Z) :
+theorem gen_density_eq_eval_density_flowmodel [AddCommGroup L] (f : NFlowM X Z L)
+    (noise : Z) (z : Option Z) (h : RoundTripAt f.T (z.getD noise)) :
     fmLogProb f (fmSampleAndLogProb f noise z none).1 = (fmSampleAndLogProb f noise z none).2 ∧
     fmForwardAndLogProb f (fmSampleAndLogProb f noise z none).1
       = (z.getD noise, (fmSampleAndLogProb f noise z none).2) := by
   cases z with
-  | none => exact gen_density_eq_eval_density_nflow f h noise
+  | none => exact gen_density_eq_eval_density_nflow f noise h
   | some z =>
-    have e := h.2 z
+    have e : f.T.fwd (f.T.inv z).1 = (z, -(f.T.inv z).2) := h
     simp only [fmLogProb, fmSampleAndLogProb, fmForwardAndLogProb, NFlowM.logProb, NFlowM.forwardAndLogProb,
       NFlowM.forward, NFlowM.inverse, NFlowM.baseLogProb, Option.getD_some]
     rw [e]
@@ -230,32 +265,37 @@ theorem gen_density_eq_eval_density_flowmodel [AddCommGroup L] (f : NFlowM X Z L
 
 example : fmLogProb exFlow (fmSampleAndLogProb exFlow 0 (some 7) none).1
     = (fmSampleAndLogProb exFlow 0 (some 7) none).2 :=
-  (gen_density_eq_eval_density_flowmodel exFlow exFlow_lawful 0 (some 7)).1
+  (gen_density_eq_eval_density_flowmodel exFlow 0 (some 7) (exFlow_lawful.roundTripAt 7)).1
 
 /-- With an alternative latent distribution the base term of the returned density is THAT distribution's
 log-density at `z` (not the flow's base density): the result is `alt z` plus the flow's log-Jacobian term
 `log_prob(x) - base(z)`; it coincides with the flow density exactly when `alt z = base z`. -/
-theorem flowmodel_alt_dist_uses_that_density [AddCommGroup L] (f : NFlowM X Z L) (h : Lawful f.T)
-    (noise z : Z) (alt : Z → L) :
+theorem flowmodel_alt_dist_uses_that_density [AddCommGroup L] (f : NFlowM X Z L)
+    (noise z : Z) (alt : Z → L) (h : RoundTripAt f.T z) :
     (fmSampleAndLogProb f noise (some z) (some alt)).1 = (fmSampleAndLogProb f noise (some z) none).1 ∧
     (fmSampleAndLogProb f noise (some z) (some alt)).2
       = alt z + (fmLogProb f (fmSampleAndLogProb f noise (some z) (some alt)).1 - f.base z) := by
-  have e := h.2 z
+  have e : f.T.fwd (f.T.inv z).1 = (z, -(f.T.inv z).2) := h
   simp only [fmLogProb, fmSampleAndLogProb, NFlowM.logProb, NFlowM.inverse, NFlowM.baseLogProb]
   rw [e]
   refine ⟨?_, by simp only []; abel⟩
   simp only []
 
-example : (fmSampleAndLogProb exFlow 0 (some 7) (some fun _ => 100)).2 = 102 := by decide
+example : (fmSampleAndLogProb exFlow 0 (some 7) (some fun _ => 100)).2
+    = 100 + (fmLogProb exFlow (fmSampleAndLogProb exFlow 0 (some 7) (some fun _ => 100)).1 - exFlow.base 7) :=
+  (flowmodel_alt_dist_uses_that_density exFlow 0 7 (fun _ => 100) (exFlow_lawful.roundTripAt 7)).2
 
 /-- `FlowProposal`: the density `backward_pass` attaches to the physical-space point it generates from `z`
 (flow density minus the inverse-rescaling log-Jacobian) equals the density `forward_pass` computes at that
-point (flow density plus the rescaling log-Jacobian), and `forward_pass` returns `z`; with and without rescaling. -/
+point (flow density plus the rescaling log-Jacobian), and `forward_pass` returns `z`; with and without rescaling.
+Hypotheses, both pointwise: the flow round-trips at `z`; when rescaling is on, the reparameterisation round-trips at
+the generated x'-point `(f.T.inv z).1` (inverse-rescaled point maps forward to it with the opposite log-Jacobian). -/
 theorem gen_density_eq_eval_density_flowproposal [AddCommGroup L] (f : NFlowM X Z L) (R : Transform X X L)
-    (hT : Lawful f.T) (hR : Lawful R) (rescale : Bool) (z : Z) :
+    (rescale : Bool) (z : Z) (hT : RoundTripAt f.T z)
+    (hR : rescale = true → RoundTripAt R (f.T.inv z).1) :
     fpForwardPass f R rescale (fpBackwardPass f R none rescale z).1
       = (z, (fpBackwardPass f R none rescale z).2) := by
-  have eT := hT.2 z
+  have eT : f.T.fwd (f.T.inv z).1 = (z, -(f.T.inv z).2) := hT
   cases rescale with
   | false =>
     simp only [fpForwardPass, fpBackwardPass, fmSampleAndLogProb, fmForwardAndLogProb, NFlowM.forwardAndLogProb,
@@ -263,29 +303,65 @@ theorem gen_density_eq_eval_density_flowproposal [AddCommGroup L] (f : NFlowM X 
     rw [eT]
     exact Prod.ext rfl (by simp only []; abel)
   | true =>
-    have eR := hR.2 (f.T.inv z).1
+    have eR : R.fwd (R.inv (f.T.inv z).1).1 = ((f.T.inv z).1, -(R.inv (f.T.inv z).1).2) := hR rfl
     simp only [fpForwardPass, fpBackwardPass, fmSampleAndLogProb, fmForwardAndLogProb, NFlowM.forwardAndLogProb,
       NFlowM.forward, NFlowM.inverse, NFlowM.baseLogProb, if_true]
     rw [eR]; simp only []; rw [eT]
     exact Prod.ext rfl (by simp only []; abel)
 
-/-- a lawful rescaling on ℤ for the examples: `x' = x - 1`, log-Jacobian 4 -/
+/-- **An affine rescaling satisfies the pointwise hypothesis everywhere.**  `x' i = x i · a i + b i` with `a i ≠ 0`
+(rescale-to-bounds without inversion, z-score, scale, null): at every x'-point the inverse-rescaled point maps forward
+to it with the opposite log-Jacobian. -/
+theorem affine_rescaling_round_trip [Field K] [AddCommGroup L] {n : Nat} (lg : K → L) (a b : Fin n → K)
+    (ha : ∀ i, a i ≠ 0) (x' : Fin n → K) : RoundTripAt (affine lg a b) x' :=
+  (affine_lawful lg a b ha).roundTripAt x'
+
+/-- a concrete 2-d flow (one coupling layer with a quadratic conditioner) and a concrete affine rescaling
+(`x' = 2 x - 1`, the map of [0,1]² onto [-1,1]²) over ℚ -/
+def exFlow2 : NFlowM (Fin 2 → ℚ) (Fin 2 → ℚ) ℚ :=
+  ⟨coupling (fun a => a) (fun i => i.val == 1) (fun c _ => c 0 * c 0 + 1) (fun c _ => c 0), fun z => -(z 0 + z 1)⟩
+/-- the affine rescaling of the examples -/
+def exAffineR : Transform (Fin 2 → ℚ) (Fin 2 → ℚ) ℚ := affine (fun a => a) (fun _ => 2) (fun _ => -1)
+/-- the example flow is lawful (a coupling layer with non-vanishing scale) -/
+theorem exFlow2_lawful : Lawful exFlow2.T :=
+  coupling_lawful (K := ℚ) (L := ℚ) (n := 2) (fun a => a) (fun i => i.val == 1) (fun c _ => c 0 * c 0 + 1)
+    (fun c _ => c 0) (fun c i _ => by have := mul_self_nonneg (c 0); intro h0; linarith)
+
+/-- both hypotheses instantiated: coupling flow + affine rescaling, at every latent point, with and without rescaling -/
+example (rescale : Bool) (z : Fin 2 → ℚ) :
+    fpForwardPass exFlow2 exAffineR rescale (fpBackwardPass exFlow2 exAffineR none rescale z).1
+      = (z, (fpBackwardPass exFlow2 exAffineR none rescale z).2) :=
+  gen_density_eq_eval_density_flowproposal exFlow2 exAffineR rescale z (exFlow2_lawful.roundTripAt z)
+    (fun _ => affine_rescaling_round_trip _ _ _ (fun _ => by norm_num) _)
+
+/-- a lawful rescaling on ℤ for the small computed examples: `x' = x - 1`, log-Jacobian 4 -/
 def exR : Transform ℤ ℤ ℤ := ⟨fun x => (x - 1, 4), fun x' => (x' + 1, -4)⟩
 /-- the example rescaling is lawful -/
 theorem exR_lawful : Lawful exR := ⟨fun x => by simp [exR], fun z => by simp [exR]⟩
 
 example : fpForwardPass exFlow exR true (fpBackwardPass exFlow exR none true 7).1
     = (7, (fpBackwardPass exFlow exR none true 7).2) :=
-  gen_density_eq_eval_density_flowproposal exFlow exR exFlow_lawful exR_lawful true 7
+  gen_density_eq_eval_density_flowproposal exFlow exR true 7 (exFlow_lawful.roundTripAt 7)
+    (fun _ => exR_lawful.roundTripAt _)
+
+/-- the pointwise hypothesis on the reparameterisation is needed, and it is exactly what fails for a folding
+(inversion-like) map at a point on the folded side: with `x' = |x|` the prime point `-1` is generated but never reached
+forwards, and the attached density is not the forward density. -/
+theorem gen_density_eq_eval_density_flowproposal_fails_without :
+    ∃ R : Transform ℤ ℤ ℤ, ¬ RoundTripAt R (exFlow.T.inv 2).1 ∧
+      fpForwardPass exFlow R true (fpBackwardPass exFlow R none true 2).1 ≠ (2, (fpBackwardPass exFlow R none true 2).2) := by
+  refine ⟨⟨fun x => (x.natAbs, 0), fun x' => (x', 0)⟩, by unfold RoundTripAt; decide, by decide⟩
 
 /-- `FlowProposal` with an alternative latent distribution (`latent_prior = uniform_nball`): the density attached
-by `backward_pass` is the forward density with the flow's base term replaced by the alternative density at `z`. -/
+by `backward_pass` is the forward density with the flow's base term replaced by the alternative density at `z`
+(same pointwise hypotheses). -/
 theorem flowproposal_alt_dist_uses_that_density [AddCommGroup L] (f : NFlowM X Z L) (R : Transform X X L)
-    (hT : Lawful f.T) (hR : Lawful R) (rescale : Bool) (z : Z) (alt : Z → L) :
+    (rescale : Bool) (z : Z) (alt : Z → L) (hT : RoundTripAt f.T z)
+    (hR : rescale = true → RoundTripAt R (f.T.inv z).1) :
     (fpForwardPass f R rescale (fpBackwardPass f R (some alt) rescale z).1).1 = z ∧
     (fpBackwardPass f R (some alt) rescale z).2
       = alt z + ((fpForwardPass f R rescale (fpBackwardPass f R (some alt) rescale z).1).2 - f.base z) := by
-  have eT := hT.2 z
+  have eT : f.T.fwd (f.T.inv z).1 = (z, -(f.T.inv z).2) := hT
   cases rescale with
   | false =>
     simp only [fpForwardPass, fpBackwardPass, fmSampleAndLogProb, fmForwardAndLogProb, NFlowM.forwardAndLogProb,
@@ -293,20 +369,25 @@ theorem flowproposal_alt_dist_uses_that_density [AddCommGroup L] (f : NFlowM X Z
     rw [eT]
     exact ⟨rfl, by simp only []; abel⟩
   | true =>
-    have eR := hR.2 (f.T.inv z).1
+    have eR : R.fwd (R.inv (f.T.inv z).1).1 = ((f.T.inv z).1, -(R.inv (f.T.inv z).1).2) := hR rfl
     simp only [fpForwardPass, fpBackwardPass, fmSampleAndLogProb, fmForwardAndLogProb, NFlowM.forwardAndLogProb,
       NFlowM.forward, NFlowM.inverse, NFlowM.baseLogProb, if_true]
     rw [eR]; simp only []; rw [eT]
     exact ⟨rfl, by simp only []; abel⟩
 
-example : (fpBackwardPass exFlow exR (some fun _ => 100) true 7).2 = 106 := by decide
+example (z : Fin 2 → ℚ) (alt : (Fin 2 → ℚ) → ℚ) :
+    (fpForwardPass exFlow2 exAffineR true (fpBackwardPass exFlow2 exAffineR (some alt) true z).1).1 = z :=
+  (flowproposal_alt_dist_uses_that_density exFlow2 exAffineR true z alt (exFlow2_lawful.roundTripAt z)
+    (fun _ => affine_rescaling_round_trip _ _ _ (fun _ => by norm_num) _)).1
 
 /-- `ImportanceFlowProposal.draw`: the `log_q` row attached to a drawn physical point (computed at the generated
 `x'` with the Jacobian of the re-rescaled point) equals the row `compute_meta_proposal_samples` computes when
-the same physical point is passed forwards — provided clipping leaves the point unchanged. -/
+the same physical point is passed forwards — provided the reparameterisation round-trips at the generated `x'`
+(pointwise) and clipping leaves the inverse-rescaled point unchanged. -/
 theorem gen_density_eq_eval_density_importance [AddCommGroup L] (fs : List (NFlowM X Z L)) (R : Transform X X L)
-    (hR : Lawful R) (clip : X → X) (i : Nat) (noise : Z) (x : X) (row : List L)
-    (hclip : ∀ x', clip (R.inv x').1 = (R.inv x').1)
+    (clip : X → X) (i : Nat) (noise : Z) (x : X) (row : List L)
+    (hR : ∀ fi, fs[i]? = some fi → RoundTripAt R (fi.sample noise))
+    (hclip : ∀ fi, fs[i]? = some fi → clip (R.inv (fi.sample noise)).1 = (R.inv (fi.sample noise)).1)
     (h : ifpDraw fs R clip i noise = some (x, row)) : row = ifpMetaRow fs R x := by
   unfold ifpDraw ifmSampleIth at h
   cases hi : fs[i]? with
@@ -314,11 +395,18 @@ theorem gen_density_eq_eval_density_importance [AddCommGroup L] (fs : List (NFlo
   | some fi =>
     simp only [hi, Option.map_some, Option.some.injEq, Prod.mk.injEq] at h
     obtain ⟨hx, hrow⟩ := h
-    rw [hclip] at hx hrow
-    have eR := hR.2 (fi.sample noise)
+    rw [hclip fi hi] at hx hrow
+    have eR : R.fwd (R.inv (fi.sample noise)).1 = (fi.sample noise, -(R.inv (fi.sample noise)).2) := hR fi hi
     subst hx
     unfold ifpMetaRow
     rw [← hrow, eR]
+
+/-- both hypotheses instantiated with the affine rescaling and no clipping: whatever `draw` returns carries the forward row -/
+example (noise : Fin 2 → ℚ) (x : Fin 2 → ℚ) (row : List ℚ)
+    (h : ifpDraw [exFlow2, exFlow2] exAffineR id 1 noise = some (x, row)) :
+    row = ifpMetaRow [exFlow2, exFlow2] exAffineR x :=
+  gen_density_eq_eval_density_importance _ _ id 1 noise x row
+    (fun _ _ => affine_rescaling_round_trip _ _ _ (fun _ => by norm_num) _) (fun _ _ => rfl) h
 
 example : ifpDraw [exFlow] exR id 0 7 = some (5, [0, -1]) ∧ ifpMetaRow [exFlow] exR 5 = [0, -1] := by decide
 
@@ -330,19 +418,19 @@ theorem gen_density_eq_eval_density_importance_fails_without :
 
 /-- the column of flow `i` in the row attached by `draw` is the generation-direction density of the drawn
 point: base density of the noise minus the flow's inverse log-Jacobian minus the inverse-rescaling
-log-Jacobian (what `sample_and_log_prob` followed by `log_prob -= log_j_inv` gives). -/
+log-Jacobian (what `sample_and_log_prob` followed by `log_prob -= log_j_inv` gives); pointwise hypotheses. -/
 theorem importance_draw_column_is_generation_density [AddCommGroup L] (fs : List (NFlowM X Z L))
-    (R : Transform X X L) (hR : Lawful R) (clip : X → X) (i : Nat) (noise : Z) (x : X) (row : List L) (fi : NFlowM X Z L)
-    (hi : fs[i]? = some fi) (hT : Lawful fi.T)
-    (hclip : ∀ x', clip (R.inv x').1 = (R.inv x').1)
+    (R : Transform X X L) (clip : X → X) (i : Nat) (noise : Z) (x : X) (row : List L) (fi : NFlowM X Z L)
+    (hi : fs[i]? = some fi) (hT : RoundTripAt fi.T noise) (hR : RoundTripAt R (fi.sample noise))
+    (hclip : clip (R.inv (fi.sample noise)).1 = (R.inv (fi.sample noise)).1)
     (h : ifpDraw fs R clip i noise = some (x, row)) :
     row[i + 1]? = some ((fi.sampleAndLogProb noise).2 - (R.inv (fi.sampleAndLogProb noise).1).2) := by
   unfold ifpDraw ifmSampleIth at h
   simp only [hi, Option.map_some, Option.some.injEq, Prod.mk.injEq] at h
   obtain ⟨_, hrow⟩ := h
   rw [hclip] at hrow
-  have eR := hR.2 (fi.sample noise)
-  have eT := hT.2 noise
+  have eR : R.fwd (R.inv (fi.sample noise)).1 = (fi.sample noise, -(R.inv (fi.sample noise)).2) := hR
+  have eT : fi.T.fwd (fi.T.inv noise).1 = (noise, -(fi.T.inv noise).2) := hT
   rw [← hrow, eR]
   simp only [ifpLogQRow, ifmLogProbAll, List.getElem?_cons_succ, List.getElem?_map, hi, Option.map_some,
     NFlowM.logProb, NFlowM.sample, NFlowM.sampleAndLogProb]
@@ -350,24 +438,27 @@ theorem importance_draw_column_is_generation_density [AddCommGroup L] (fs : List
   simp only [Option.some.injEq]
   abel
 
-example : (ifpDraw [exFlow] exR id 0 7).map (fun p => p.2[1]?) = some (some (-1)) ∧
-    (exFlow.sampleAndLogProb 7).2 - (exR.inv (exFlow.sampleAndLogProb 7).1).2 = -1 := by decide
+example : (([0, -1] : List ℤ))[0 + 1]? = some ((exFlow.sampleAndLogProb 7).2 - (exR.inv (exFlow.sampleAndLogProb 7).1).2) :=
+  importance_draw_column_is_generation_density [exFlow] exR id 0 7 5 [0, -1] exFlow rfl (exFlow_lawful.roundTripAt 7)
+    (exR_lawful.roundTripAt _) rfl (by decide)
 
-/-- `update_log_q` appends, for level `level`, exactly the column `level+1` of the forward row: extending the
-first `level+1` columns of a sample's row gives its first `level+2` columns, so densities stored at draw time
-and densities added later for the same physical point agree. -/
-theorem importance_update_log_q_matches_row [AddCommGroup L] (fs : List (NFlowM X Z L)) (R : Transform X X L)
-    (x : X) (level : Nat) (hl : level < fs.length) :
-    ifpUpdateLogQ fs R level x ((ifpMetaRow fs R x).take (level + 1))
-      = some ((ifpMetaRow fs R x).take (level + 2)) := by
-  unfold ifpUpdateLogQ ifmLogProbIth ifpMetaRow ifpLogQRow ifmLogProbAll
-  have hget : fs[level]? = some fs[level] := List.getElem?_eq_getElem hl
-  simp only [hget, Option.map_some, Option.some.injEq]
-  rw [List.take_add_one (i := level + 1)]
-  simp [hget]
+/-- **Densities stored at draw time and extended later agree with the enlarged proposal.**  A point drawn when the
+proposal holds the flows `fs` carries a row of `|fs|+1` columns; after a new flow `g` has been trained,
+`update_log_q` (level `|fs|`) turns that stored row into exactly the row `compute_meta_proposal_samples` computes for
+the same physical point under the enlarged list `fs ++ [g]`. -/
+theorem importance_update_after_draw_is_forward_row [AddCommGroup L] (fs : List (NFlowM X Z L)) (g : NFlowM X Z L)
+    (R : Transform X X L) (clip : X → X) (i : Nat) (noise : Z) (x : X) (row : List L)
+    (hR : ∀ fi, fs[i]? = some fi → RoundTripAt R (fi.sample noise))
+    (hclip : ∀ fi, fs[i]? = some fi → clip (R.inv (fi.sample noise)).1 = (R.inv (fi.sample noise)).1)
+    (h : ifpDraw fs R clip i noise = some (x, row)) :
+    ifpUpdateLogQ (fs ++ [g]) R fs.length x row = some (ifpMetaRow (fs ++ [g]) R x) := by
+  have hrow := gen_density_eq_eval_density_importance fs R clip i noise x row hR hclip h
+  subst hrow
+  simp [ifpUpdateLogQ, ifmLogProbIth, ifpMetaRow, ifpLogQRow, ifmLogProbAll]
 
-example : ifpUpdateLogQ [exFlow, exFlow] exR 1 5 ((ifpMetaRow [exFlow, exFlow] exR 5).take 2)
-    = some (ifpMetaRow [exFlow, exFlow] exR 5) := by decide
+example : ifpUpdateLogQ ([exFlow] ++ [exFlow]) exR 1 5 [0, -1] = some (ifpMetaRow ([exFlow] ++ [exFlow]) exR 5) :=
+  importance_update_after_draw_is_forward_row [exFlow] exFlow exR id 0 7 5 [0, -1]
+    (fun _ _ => exR_lawful.roundTripAt _) (fun _ _ => rfl) (by decide)
 
 /-! ## end to end for the layers proved above -/
 
@@ -444,13 +535,24 @@ theorem realnvp_stack_lawful [Field K] [AddCommGroup L] {n : Nat} (lg : K → L)
     · exact Builtin.coupling _ _ _ h4
     · exact Builtin.affine _ _ (h5 p hp)
 
-example : (⟨none, some (Fin.rev, Fin.rev), some (fun _ _ => 5, fun _ => 3, fun _ _ => 7, fun _ => 1), fun i => i.val == 1,
-    fun c _ => c 0 * c 0 + 1, fun c _ => c 0, some (fun _ => 2, fun _ => 0)⟩ : RealNVPBlock 2 ℚ).Valid := by
-  refine ⟨by simp, ?_, ?_, ?_, ?_⟩
+/-- a concrete RealNVP block: reverse permutation, LU layer, quadratic-conditioner coupling, batch norm -/
+def exRealNVPBlock : RealNVPBlock 2 ℚ :=
+  ⟨none, some (Fin.rev, Fin.rev), some (fun _ _ => 5, fun _ => 3, fun _ _ => 7, fun _ => 1), fun i => i.val == 1,
+    fun c _ => c 0 * c 0 + 1, fun c _ => c 0, some (fun _ => 2, fun _ => 0)⟩
+/-- the concrete block meets the hypotheses -/
+theorem exRealNVPBlock_valid : exRealNVPBlock.Valid := by
+  refine ⟨by simp [exRealNVPBlock], ?_, ?_, ?_, ?_⟩
   · intro p hp; cases hp; exact ⟨fun i => Fin.rev_rev i, fun i => Fin.rev_rev i⟩
   · intro p hp; cases hp; intro i; norm_num
-  · intro c i _; have := mul_self_nonneg (c 0); intro h0; linarith
+  · intro c i _; have := mul_self_nonneg (c 0); intro h0; simp only [exRealNVPBlock] at h0; linarith
   · intro p hp; cases hp; intro i; norm_num
+
+example : Lawful (composite (L := ℚ)
+    (((some (fun _ => 3, fun _ => 1) : Option ((Fin 2 → ℚ) × (Fin 2 → ℚ))).map
+        fun p => affine (fun a => a) p.1 p.2).toList
+      ++ [exRealNVPBlock, exRealNVPBlock, exRealNVPBlock].flatMap (·.layers (fun a => a)))) :=
+  realnvp_stack_lawful (fun a => a) _ (fun p hp i => by cases hp; norm_num) _
+    (fun B hB => by simp only [List.mem_cons, List.not_mem_nil, or_false, or_self] at hB; subst hB; exact exRealNVPBlock_valid)
 
 /-- one block of nessai's `MaskedAutoregressiveFlow`: a permutation (reverse or random), the masked affine
 autoregressive transform, optional batch norm (eval mode) -/
@@ -489,34 +591,62 @@ theorem maf_stack_lawful [Field K] [AddCommGroup L] {n : Nat} (lg : K → L)
   · exact Builtin.autoregressive _ _ h3 h4 h5
   · exact Builtin.affine _ _ (h6 p hp)
 
-example : (⟨Fin.rev, Fin.rev, fun _ _ => 2, fun _ _ => 1, none⟩ : MAFBlock 3 ℚ).Valid :=
-  ⟨fun i => Fin.rev_rev i, fun i => Fin.rev_rev i, fun _ _ _ _ => rfl, fun _ _ _ _ => rfl, fun _ _ => by norm_num, by simp⟩
+/-- a concrete MAF block in 3 dimensions: reverse permutation + the autoregressive layer with the quadratic conditioner -/
+def exMAFBlock : MAFBlock 3 ℚ := ⟨Fin.rev, Fin.rev, exARs, exARt, some (fun _ => 2, fun _ => 1)⟩
+/-- the concrete block meets the hypotheses -/
+theorem exMAFBlock_valid : exMAFBlock.Valid := by
+  refine ⟨fun i => Fin.rev_rev i, fun i => Fin.rev_rev i, ?_, ?_, ?_, ?_⟩
+  · intro i x x' h
+    fin_cases i <;> simp [exMAFBlock, exARs]
+    rw [h 0 (by simp)]
+  · intro i x x' h
+    fin_cases i <;> simp [exMAFBlock, exARt]
+    · rw [h 0 (by simp)]
+    · rw [h 0 (by simp), h 1 (by simp)]
+  · intro i x
+    fin_cases i <;> simp [exMAFBlock, exARs]
+    have := mul_self_nonneg (x 0); intro h0; linarith
+  · intro p hp; cases hp; intro i; norm_num
+
+example : Lawful (composite (L := ℚ) ([exMAFBlock, exMAFBlock].flatMap (·.layers (fun a => a)))) :=
+  maf_stack_lawful (fun a => a) _
+    (fun B hB => by simp only [List.mem_cons, List.not_mem_nil, or_false, or_self] at hB; subst hB; exact exMAFBlock_valid)
 
 /-- **End to end (partial).**  For a flow that is any stack of affine-coupling / masked-autoregressive / LU /
 elementwise-affine / permutation layers with arbitrary conditioners (RealNVP with `linear_transform ∈ {None, permutation,
-lu}` and MAF, with or without batch norm / actnorm), any base density and any lawful reparameterisation, the density
+lu}` and MAF, with or without batch norm / actnorm), any base density and any reparameterisation that round-trips at the generated x'-point, the density
 `FlowProposal` attaches to a generated physical point equals the density it computes forwards at that point, and forward
 after inverse returns the input.  Gap to the property: rational-quadratic spline and SVD (Householder) layers are covered
 only through the lawfulness hypothesis of the general theorems; normalisation (∫ = 1), batch norm in training mode and
 floating point are not covered. -/
 theorem builtin_stack_density_consistent_partial [Field K] [AddCommGroup L] {n : Nat} (lg : K → L)
     (ts : List (Transform (Fin n → K) (Fin n → K) L)) (hts : ∀ t ∈ ts, Builtin lg t)
-    (base : (Fin n → K) → L) (R : Transform (Fin n → K) (Fin n → K) L) (hR : Lawful R)
-    (rescale : Bool) (z : Fin n → K) :
+    (base : (Fin n → K) → L) (R : Transform (Fin n → K) (Fin n → K) L)
+    (rescale : Bool) (z : Fin n → K) (hR : rescale = true → RoundTripAt R ((composite ts).inv z).1) :
     Lawful (composite ts) ∧
     fpForwardPass ⟨composite ts, base⟩ R rescale (fpBackwardPass ⟨composite ts, base⟩ R none rescale z).1
       = (z, (fpBackwardPass ⟨composite ts, base⟩ R none rescale z).2) := by
   have hl : Lawful (composite ts) := forward_inverse ts (fun t ht => builtin_lawful lg t (hts t ht))
-  exact ⟨hl, gen_density_eq_eval_density_flowproposal ⟨composite ts, base⟩ R hl hR rescale z⟩
+  exact ⟨hl, gen_density_eq_eval_density_flowproposal ⟨composite ts, base⟩ R rescale z (hl.roundTripAt z) hR⟩
 
-example : ∀ t ∈ [coupling (K := ℚ) (L := ℚ) (n := 2) (fun a => a) (fun i => i.val == 1)
-      (fun c _ => c 0 * c 0 + 1) (fun c _ => c 0), permutation Fin.rev Fin.rev,
-      luLinear (fun a => a) (fun _ _ => 5) (fun _ => 3) (fun _ _ => 7) (fun _ => 1)], Builtin (fun a => a) t := by
+/-- a concrete stack: coupling, reverse permutation, LU layer -/
+def exStack : List (Transform (Fin 2 → ℚ) (Fin 2 → ℚ) ℚ) :=
+  [coupling (fun a => a) (fun i => i.val == 1) (fun c _ => c 0 * c 0 + 1) (fun c _ => c 0), permutation Fin.rev Fin.rev,
+    luLinear (fun a => a) (fun _ _ => 5) (fun _ => 3) (fun _ _ => 7) (fun _ => 1)]
+/-- every layer of the concrete stack is built in -/
+theorem exStack_builtin : ∀ t ∈ exStack, Builtin (fun a => a) t := by
   intro t ht
-  simp only [List.mem_cons, List.not_mem_nil, or_false] at ht
+  simp only [exStack, List.mem_cons, List.not_mem_nil, or_false] at ht
   rcases ht with rfl | rfl | rfl
   · exact Builtin.coupling _ _ _ (fun c i _ => by have := mul_self_nonneg (c 0); intro h0; linarith)
   · exact Builtin.permutation _ _ (fun i => Fin.rev_rev i) (fun i => Fin.rev_rev i)
   · exact Builtin.lu _ _ _ _ (fun _ => by norm_num)
+
+/-- the end-to-end statement for the concrete stack with the affine rescaling, at every latent point -/
+example (rescale : Bool) (z : Fin 2 → ℚ) (base : (Fin 2 → ℚ) → ℚ) :
+    fpForwardPass ⟨composite exStack, base⟩ exAffineR rescale (fpBackwardPass ⟨composite exStack, base⟩ exAffineR none rescale z).1
+      = (z, (fpBackwardPass ⟨composite exStack, base⟩ exAffineR none rescale z).2) :=
+  (builtin_stack_density_consistent_partial (fun a => a) exStack exStack_builtin base exAffineR rescale z
+    (fun _ => affine_rescaling_round_trip _ _ _ (fun _ => by norm_num) _)).2
 
 end NessaiVerif.C08
